@@ -78,6 +78,9 @@ def Header.unpack (h : Header) (buffer : Bytes) : Header × Bool :=
        reserved := rs }, true)
   | _ => (h, false)
 
+/-- `len(header)` -/
+def Header.len (_ : Header) : Nat := 8
+
 /-- the attributes of an `RF24NetworkFrame` object -/
 structure Frame where
   header : Header := {}
